@@ -25,3 +25,6 @@ def run(F, X, rep):
     if H.need_hh(C, rep, "C10-R"):
         E.r_self_route_hint(C, rep, "C10-R")
         H.n2_forward_classification(C, rep, "C10-C")
+        # "exactly the sender-declared amount": every part of a set declares the same amount to deliver - a part whose
+        # info (amount included) differs is rejected by the whole-struct comparison, which must look at every field
+        H.u3_reject_before_add(C, rep, "C10-E", which=("conflict",))
